@@ -28,6 +28,12 @@ P = {
  "C16": ("decision-table extraction (path enumeration + phi resolution, compared on all atom assignments), registry check of the ReverseProxy literal, defer/ordering path rule",
          "The standard error handler's status table is extracted from all CFG paths and compared with 504/502/502/499/500 on every assignment of {net.Error, Timeout, io.EOF, context.Canceled}; exactly one WriteHeader then a body write on every path; forward.New binds that handler as ReverseProxy.ErrorHandler and leaves relay hooks to the stdlib (a configured BufferPool must allocate per Get); the state listener's 'disconnected' is registered with defer after 'connected', before the wrapped handler, for the same URL. Level 'other'.",
          "NOT decided: which error values the transport produces per failure mode, 'never a hang', byte-faithful relay (delegated to net/http/httputil, trusted). Trusted: go/ssa, analyser.", "3/C16"),
+ "C17": ("expression reconstruction with dimension (unit) inference, edge-guard and must-pass-through path rules",
+         "Structural necessary conditions of the rolling window: the value reduced modulo the bucket count is dimensionless slots (quantised time / resolution) and the clean-up quantises on the same grid with a strict later-slot test and zeroes the mapped bucket; every exported counter method cleans up before any bucket access on every path; every ratio divides only on the denominator-non-zero edge and returns 0 otherwise. Level 'other'.",
+         "NOT decided: the two-sided window inequality over all histories (arithmetic; no sound static argument in reach), loop bounds of the clean-up. Trusted: go/ssa, analyser, time.Time.Truncate semantics.", "3/C17"),
+ "C19": ("decision-table extraction over NewExtractor + value provenance (def-use) of the returned token",
+         "NewExtractor's dispatch is extracted as a decision table (supported variables return an extractor, everything else a non-nil error); client.ip's token must be exactly the host result of an allow-listed host:port parser applied to req.RemoteAddr on its success edge (first-colon splitters are definite violations, other derivations UNDECIDED), request.host returns req.Host itself, request.header.X returns req.Header.Get(X) with X the suffix; amount is the constant 1 on success. Level 'other'.",
+         "NOT decided: behaviour of net.SplitHostPort itself (stdlib, trusted). Trusted: go/ssa, analyser.", "3/C19"),
 }
 
 NA = {}
